@@ -121,7 +121,11 @@ def meta_universe(g: Gen, n=40):
            Metadata(per_occurrence_limit=None), Metadata(per_occurrence_limit=0), Metadata(per_occurrence_limit=1e9),
            Metadata(details={"a": 1, "b": 2}), Metadata(details={"b": 2, "a": 1}), Metadata(details={"a": 1}),
            Metadata(details={"a": 1, "b": 3}), Metadata(loss_details={"a": 1}), Metadata(details={"a": 1.0}),
-           Metadata(details={"a": True})]
+           Metadata(details={"a": True}),
+           # values whose CPython hashes collide (hash(-1) == hash(-2), hash(0) == hash(2**61 - 1)): distinct metadata
+           Metadata(details={"a": -1}), Metadata(details={"a": -2}), Metadata(details={"a": -1.0}), Metadata(details={"a": -2.0}),
+           Metadata(loss_details={"a": -1}), Metadata(loss_details={"a": -2}), Metadata(per_occurrence_limit=-2),
+           Metadata(details={"a": 0}), Metadata(details={"a": 2**61 - 1})]
     return ms[: max(n, len(ms))]
 
 
@@ -163,7 +167,7 @@ def op_sequence(ctx, g: Gen, t, length, forced=None):
                "replace", "make_right_triangle", "make_right_diagonal", "split", "period_merge", "add_statics",
                "thin", "fill_forward_gaps", "backfill", "convert_currency", "binary_roundtrip", "json_roundtrip",
                "blend", "remove_static_details", "shift_origin", "add_cross_basis_after", "add_cross_basis_after",
-               "wide_frame_roundtrip", "long_frame_roundtrip", "unlimit_one_slice"]
+               "wide_frame_roundtrip", "long_frame_roundtrip", "unlimit_one_slice", "replace_prev", "replace_dates"]
         op = forced[_step] if forced else r.choice(ops)
         forced_cross = op == "add_cross_basis_after"
         if forced_cross:
@@ -324,6 +328,24 @@ def op_sequence(ctx, g: Gen, t, length, forced=None):
                 lim = r.choice([None, None, 1000000, 250000.0])
                 t2 = t.replace(metadata=lambda c: _dc.replace(c.metadata, per_occurrence_limit=lim) if c.metadata == m0 else
                                (_dc.replace(c.metadata, per_occurrence_limit=500000) if r.random() < 0.0 else c.metadata))
+            elif op == "replace_prev":
+                # Cell.replace must re-validate whatever it replaces: an invalid prev_evaluation_date is refused
+                if not t.is_incremental:
+                    raise ValueError("not applicable")
+                how = r.choice(["equal-to-evaluation", "after-evaluation", "one-day-earlier"])
+                delta = {"equal-to-evaluation": 0, "after-evaluation": 5, "one-day-earlier": None}[how]
+                if delta is None:
+                    t2 = t.replace(prev_evaluation_date=lambda c: c.prev_evaluation_date - datetime.timedelta(days=1))
+                else:
+                    t2 = t.replace(prev_evaluation_date=lambda c: c.evaluation_date + datetime.timedelta(days=delta))
+            elif op == "replace_dates":
+                how = r.choice(["end-before-start", "evaluation-before-start", "later-evaluation"])
+                if how == "end-before-start":
+                    t2 = t.replace(period_end=lambda c: c.period_start - datetime.timedelta(days=1))
+                elif how == "evaluation-before-start":
+                    t2 = t.replace(evaluation_date=lambda c: c.period_start - datetime.timedelta(days=1))
+                else:
+                    t2 = t.replace(evaluation_date=lambda c: c.evaluation_date + datetime.timedelta(days=3650))
             elif op == "shift_origin":
                 from bermuda.utils import shift_origin as so
 
@@ -493,9 +515,11 @@ def run(ctx):
                (dict(details={"currency": "USD"}), dict(currency="USD")),
                (dict(loss_details={"peril": "fire"}), dict(loss_details={"peril": "wind"})),
                (dict(country=None), dict(country="")), (dict(details={"k": None}), dict()),
+               (dict(details={"layer": -1}), dict(details={"layer": -2})), (dict(loss_details={"layer": -1.0}), dict(loss_details={"layer": -2.0})),
+               (dict(per_occurrence_limit=-1), dict(per_occurrence_limit=-2)), (dict(details={"n": 0}), dict(details={"n": 2**61 - 1})),
                (dict(details={"a": 1, "b": 2}, loss_details={"a": 1}), dict(details={"a": 1}, loss_details={"a": 1, "b": 2}))]
     for i in range(60 if ctx.quick else 600):
-        fam = ["A-respelled", "B-flatten-alike", "D-datetime-coords", "J-semi-monthly"][i % 4]
+        fam = ["A-respelled", "B-flatten-alike", "D-datetime-coords", "J-semi-monthly", "C-far-dates"][i % 5]
         ctx.hist("layout:directed-" + fam)
         ref = None
         if fam == "A-respelled":
@@ -518,6 +542,27 @@ def run(ctx):
                 else:
                     cells.append(c)
             ref = strict_seq(Triangle(list(base_cells)))
+        elif fam == "C-far-dates":
+            # dates far outside the range of nanosecond timestamps / 32-bit day counts, next to ordinary ones
+            from bermuda import CumulativeCell as _CumF
+
+            ms, _sd = g.metas(g.r.choice([1, 2, 3]), None)
+            far = [datetime.date(2262, 4, 12), datetime.date(2300, 12, 31), datetime.date(2999, 12, 31), datetime.date(9999, 12, 30),
+                   datetime.date(1677, 9, 20), datetime.date(1, 1, 2), datetime.date(1600, 2, 29)]
+            cells = []
+            for m in ms:
+                ps = datetime.date(g.r.randint(2000, 2030), g.r.choice([1, 7]), 1)
+                pe = ps + datetime.timedelta(days=180)
+                evs = [pe, pe + datetime.timedelta(days=365)] + [d_ for d_ in g.r.sample(far, 3) if d_ >= ps]
+                for ev in evs:
+                    cells.append(_CumF(period_start=ps, period_end=pe, evaluation_date=ev, values={"paid_loss": g.num("int")}, metadata=m))
+                if g.r.random() < 0.5:      # an open-ended period / a very old one
+                    cells.append(_CumF(period_start=ps, period_end=datetime.date.max, evaluation_date=g.r.choice([pe, datetime.date(9999, 12, 30)]),
+                                       values={"paid_loss": 1}, metadata=m))
+                if g.r.random() < 0.5:
+                    old_ps = g.r.choice([d_ for d_ in far if d_.year < 1700])
+                    cells.append(_CumF(period_start=old_ps, period_end=old_ps + datetime.timedelta(days=30), evaluation_date=pe,
+                                       values={"paid_loss": 2}, metadata=m))
         else:
             ms, _sd = g.metas(g.r.choice([1, 2]), None)
             y, mo = g.r.randint(1995, 2030), g.r.randint(1, 12)
@@ -611,7 +656,12 @@ def run(ctx):
             t, info = g.triangle(n_slices=g.r.randint(2, 3), slice_diff=g.r.choice(["details", "loss_details", "several"]),
                                  n_periods=g.r.randint(1, 3), n_lags=g.r.randint(1, 3), values=g.r.choice(["int", "float"]),
                                  layout=g.r.choice(["regular", "ragged"]))
-            for op in fixed_ops:
+            for op in fixed_ops + ["replace_dates", "replace_dates", "to_incremental", "replace_prev", "replace_prev", "replace_prev"]:
+                if op == "replace_prev" and not t.is_incremental:
+                    try:
+                        t = t.to_incremental()
+                    except Exception:  # noqa: BLE001
+                        break
                 trace, prob = op_sequence(ctx, g, t, 1, forced=[op])
                 ctx.count(evaluations=1, traces=1)
                 if prob:
